@@ -15,7 +15,7 @@ PROPS = {
     "C01": {
         "lean_modules": ["RosedVerif.Props.C01"],
         "theorems": "auto",
-        "groups": ["G-split"],
+        "groups": ["G-split", "A-chars"],
         "oracle": True,
         "tie": "tables regenerated from source (translator, validated by execution on 1.25M rune values); "
                "rule chain regenerated as data (Gen/Rules.lean) and proved equal to the model's chain (C01_rule_chain); model also tied by G-split (exhaustive class strings + random)",
